@@ -116,7 +116,8 @@ structure Req where
   host : Bytes := []       -- CONNECT: req.URL.Hostname()
   port : Bytes := []       -- CONNECT: req.URL.Port()
   pauth : Bytes := []      -- req.Header.Get("Proxy-Authorization")
-  buffered : Bytes := []   -- bufReader's unread bytes after ReadRequest
+  buffered : Bytes := []   -- bufReader's unread bytes after ReadRequest (req.Body is never read or closed
+                           -- on the CONNECT path, so a declared body is part of these bytes)
   connRest : Stream := []  -- chunks the conn still holds
   urlOk : Bool := true     -- plain: URL.Scheme != "" && URL.Host != ""
   dials : Bool := true     -- plain: net/http accepts the URL (scheme http/https) and goes on to dial
